@@ -68,6 +68,7 @@ type batchCfg struct {
 	noLocs    float64 // probability that a field instance has no term vectors
 	freq0     bool
 	vecDim    int
+	vecOne    bool // a single vector field, 2-3 vectors per document
 }
 
 func (g *Gen) defaultCfg() batchCfg {
@@ -226,6 +227,10 @@ func (g *Gen) randBatch(name string, cfg batchCfg) *BatchSpec {
 			}
 			nv := 1 + g.r.Intn(3)
 			vf := FieldSpec{Kind: "vec", Name: g.pick([]string{"vecA", "vecB"}), Dim: dim, Metric: "l2_norm", Opt: "recall"}
+			if cfg.vecOne {
+				vf.Name = "vecA"
+				nv = 2 + g.r.Intn(2)
+			}
 			if vf.Name == "vecB" {
 				vf.Metric = "dot_product"
 			}
@@ -322,6 +327,10 @@ func (g *Gen) dumpStored(seg string) {
 	}
 	ids = append(ids, []byte("absent-id"), []byte("zzzz-greater"), []byte("!less"))
 	g.emit("q docnums %s ids=%s", seg, hxList(ids))
+	// unknown ids (also ones beyond every key) may come anywhere in the list
+	shuffled := append([][]byte{[]byte("zzzz-greater"), []byte("~~")}, ids...)
+	g.r.Shuffle(len(shuffled)-1, func(i, j int) { shuffled[i+1], shuffled[j+1] = shuffled[j+1], shuffled[i+1] })
+	g.emit("q docnums %s ids=%s", seg, hxList(shuffled))
 	for _, id := range ids {
 		g.emit("q docnums %s ids=%s", seg, hx(id))
 	}
